@@ -87,10 +87,11 @@ func (e *c13Exec) outstanding() int {
 }
 
 type c13Probe struct {
-	id       int64
-	active   int32
-	inactive int32
-	gate     func(where string)
+	id         int64
+	active     int32
+	inactive   int32
+	gate       func(where string)
+	onInactive func()
 }
 
 func (p *c13Probe) HandleActive(ctx netty.ActiveContext) {
@@ -103,6 +104,9 @@ func (p *c13Probe) HandleActive(ctx netty.ActiveContext) {
 
 func (p *c13Probe) HandleInactive(ctx netty.InactiveContext, ex netty.Exception) {
 	atomic.AddInt32(&p.inactive, 1)
+	if p.onInactive != nil {
+		p.onInactive()
+	}
 	ctx.HandleInactive(ex)
 }
 
@@ -128,7 +132,7 @@ func (g c13Cfg) String() string {
 		g.listeners, g.preInject, g.preConnect, g.concInject, g.concConn, g.closeSome, g.lclose, g.gate, g.until, g.lateAsync)
 }
 
-var c13Gates = []string{"none", "loop-start", "in-listen", "before-accept", "child-init", "active", "client-init"}
+var c13Gates = []string{"none", "loop-start", "in-listen", "before-accept", "child-init", "active", "client-init", "activate-during-closeall"}
 
 func runC13(c *core.Ctx) {
 	total := c.Scale(1600, 30000)
@@ -162,6 +166,11 @@ func runC13(c *core.Ctx) {
 		if cfg.gate == "loop-start" || cfg.gate == "in-listen" || cfg.gate == "before-accept" {
 			cfg.preInject = 0 // nothing is accepting before Shutdown in these placements
 		}
+		if cfg.gate == "activate-during-closeall" {
+			cfg.preInject, cfg.preConnect = 1+rng.Intn(2), rng.Intn(2)
+			cfg.concInject, cfg.concConn = 1+rng.Intn(2), rng.Intn(2)
+			cfg.closeSome, cfg.lclose, cfg.lateAsync = false, -1, false
+		}
 		sem <- struct{}{}
 		wg.Add(1)
 		go func(id string, cfg c13Cfg) {
@@ -177,6 +186,7 @@ func c13Trial(c *core.Ctx, id string, cfg c13Cfg) {
 	s := mon.NewSched(nil)
 	const gateT = 300 * time.Millisecond
 	gateHit := int32(0)
+	lateCount := int32(0)
 	wait := func() {
 		if s.Await(cfg.until, 1, gateT) {
 			atomic.AddInt32(&gateHit, 1)
@@ -192,12 +202,28 @@ func c13Trial(c *core.Ctx, id string, cfg c13Cfg) {
 			if cfg.gate == "active" {
 				p.gate = func(string) { wait() }
 			}
+			if cfg.gate == "activate-during-closeall" {
+				// an established channel's inactive handler is slow: Shutdown's CloseAll is held inside it
+				// until a connection that was between accept and activation has become active
+				p.onInactive = func() {
+					s.Mark("closingOthers")
+					if s.Await("lateActive", 1, gateT) {
+						atomic.AddInt32(&gateHit, 1)
+					}
+				}
+				p.gate = func(string) { s.Mark("someActive") }
+			}
 			probesMu.Lock()
 			probes = append(probes, p)
 			probesMu.Unlock()
 			ch.Pipeline().AddLast(p, &mon.ParkReader{})
 			if (cfg.gate == "child-init" && kind == "child") || (cfg.gate == "client-init" && kind == "client") {
 				wait()
+			}
+			if cfg.gate == "activate-during-closeall" && atomic.AddInt32(&lateCount, 1) > int32(cfg.preInject+cfg.preConnect) {
+				// connections arriving later wait (between accept and activation) until CloseAll is busy
+				s.Await("closingOthers", 1, gateT)
+				p.gate = func(string) { s.Mark("lateActive") }
 			}
 		}
 	}
@@ -341,25 +367,31 @@ func c13Trial(c *core.Ctx, id string, cfg c13Cfg) {
 	deadline := time.Now().Add(10 * time.Second)
 	stable := false
 	parkedOpen := 0
-	for time.Now().Before(deadline) {
-		parkedOpen = 0
-		as, _ := f.Snapshot()
+	// parked = accept loops parked on open acceptors + read loops parked in Read on open transports:
+	// nothing inside the system can ever wake those (Shutdown has returned, every gate is open).
+	parked := func() (int, int) {
+		n := 0
+		as, ts := f.Snapshot()
 		for _, a := range as {
 			if !a.IsClosed() {
-				parkedOpen += a.InAccept()
+				n += a.InAccept()
 			}
 		}
+		for _, t := range ts {
+			if !t.IsClosed() {
+				n += t.InRead()
+			}
+		}
+		return n, len(as) + len(ts)
+	}
+	for time.Now().Before(deadline) {
+		var objs int
+		parkedOpen, objs = parked()
 		if ex.outstanding() == parkedOpen {
 			// confirm (two consecutive observations)
 			runtime.Gosched()
-			as2, _ := f.Snapshot()
-			p2 := 0
-			for _, a := range as2 {
-				if !a.IsClosed() {
-					p2 += a.InAccept()
-				}
-			}
-			if ex.outstanding() == p2 && p2 == parkedOpen && len(as2) == len(as) {
+			p2, objs2 := parked()
+			if ex.outstanding() == p2 && p2 == parkedOpen && objs2 == objs {
 				stable = true
 				break
 			}
@@ -399,7 +431,7 @@ func c13Trial(c *core.Ctx, id string, cfg c13Cfg) {
 	for i, t := range ts {
 		c.Count("transports_checked", 1)
 		if !t.IsClosed() {
-			viol("channel-left-open", fmt.Sprintf("transport #%d was never closed after Shutdown", i))
+			viol("channel-left-open", fmt.Sprintf("transport #%d was never closed after Shutdown (read loop parked in Read: %v): the channel stays open without further stimulus", i, t.InRead() > 0))
 		} else if n := t.CloseCount(); n != 1 {
 			viol("transport-closed-more-than-once", fmt.Sprintf("transport #%d was closed %d times", i, n))
 		}
@@ -436,6 +468,9 @@ func c13Trial(c *core.Ctx, id string, cfg c13Cfg) {
 		}
 		if cfg.gate == "child-init" || cfg.gate == "active" || cfg.gate == "client-init" {
 			c.Count("shutdown_during_channel_setup", 1)
+		}
+		if cfg.gate == "activate-during-closeall" {
+			c.Count("activation_during_closeall", 1)
 		}
 	}
 	c.Sig(cfg.listeners, cfg.preInject, cfg.preConnect, cfg.concInject, cfg.concConn, cfg.closeSome, cfg.lclose >= 0, cfg.gate, cfg.until, cfg.lateAsync, hit > 0, len(ts))
